@@ -23,12 +23,6 @@ Definition qabs (x : Q) : Q := if qle 0 x then x else Qred (- x).
 Definition len {A} (l : list A) : N := N.of_nat (length l).
 
 (* ---------- seeds ---------- *)
-Fixpoint lookup (sl : seeds) (s : N) : option (Q * option N) :=
-  match sl with
-  | [] => None
-  | r :: rest => if sid r =? s then Some (snd r) else lookup rest s
-  end.
-
 Definition proof := list N.   (* BTreeSet<SeedId>: strictly increasing list *)
 
 (* proof_probability *)
